@@ -24,7 +24,8 @@ PRELUDE = ('import vmod; import vmod2;\n'
            'function fret(o:vmod) return vmod is begin return o; end;\n'
            'function fnew(v) return vmod is begin return vmod(v); end;\n'
            'function fkeep(o:vmod) return integer is begin k = o; return k.id(); end;\n'
-           'a:vmod; b:vmod; t = tab(); u = tup(); zz = 0; x = 0; e:vmod;')
+           'function fonce(s) return vmod is begin if s.count() > 1 then raise efail; end if; return vmod(20); end;\n'
+           'a:vmod; b:vmod; t = tab(); u = tup(); zz = 0; x = 0; e:vmod; sq = "";')
 
 
 class S:
@@ -232,6 +233,11 @@ def _s_refused_var(s):
         return False
 
 
+def _s_tab_failing_item(s):
+    # the item expression is evaluated per element: the first evaluation makes an object, the second one raises
+    s.new()
+
+
 def _s_failing_body(s):
     if not s.t:
         return False
@@ -269,6 +275,7 @@ STMTS = {
     # loops that are refused when they start (a protected iterator) or die in their body with an error no handler takes
     "forall-refused-temp": ("forall $o in tab(1, vmod(9)).concat(vmod(10)) loop zz = 0; end loop;", _s_refused_temp),
     "forall-refused-var": ("forall $o in t loop zz = 0; end loop;", _s_refused_var),
+    "tab-failing-item": ('sq = ""; begin t2 = tab(3, fonce(sq.concat("x"))); exception when others then zz = 0; end;', _s_tab_failing_item),
     "forall-failing-body": ("forall e in t loop zz = vmod(11).get(); raise efail; end loop;", _s_failing_body),
 }
 FAILING = {"forall-refused-temp", "forall-refused-var", "forall-failing-body"}
